@@ -249,7 +249,39 @@ def run(ck, F):
                 if ctl:
                     bad.append(f'{c["name"]} of up to {ub} bytes from a constant of {len(cb) - 1} characters (line {n.get("ln")}): the bytes '
                                f'{sorted(set(ctl))} (terminating NUL included) reach the stream')
+        # a character view built with an explicit count over an array of characters: the count must stop short of the array's last
+        # element (the terminating NUL of the literal the array is)
+        import re as _re
+        roots = [f.get('body')] + [i.get('e') for i in f.get('inits', [])]
+        for root in roots:
+            for n in walk(root):
+                if n.get('k') != 'ctor' or len(n.get('args', [])) != 2:
+                    continue
+                if not (n.get('cls') or n.get('t') or '').replace('const ', '').startswith('std::basic_string_view<'):
+                    continue
+                a0 = strip_all(n['args'][0])
+                m = _re.search(r'\[(\d+)\]', a0.get('t') or '')
+                cnt = upper(n['args'][1])
+                if m and cnt is not None and 'char' in (a0.get('t') or '') and cnt >= int(m.group(1)):
+                    bad.append(f'a character view of {cnt} elements over an array of {m.group(1)} (line {n.get("ln")}): the terminating NUL of the '
+                               'literal is part of the view and is written with it')
         ck.check(R5, f['id'], not bad, f'{f["id"]}: ' + '; '.join(bad), loc=f['loc'], fn=f['id'])
+
+    # a refusal must be able to leave the printer: no noexcept function between an entry and a throw site
+    R6 = ck.rule('C18.refusal-propagates', 'no function of the printer that is declared noexcept can reach (through calls, virtual calls '
+                 'expanded to every overrider) a function that throws: the std::logic_error raised for an unsupported construct leaves the '
+                 'printer as an exception, it never ends the program in std::terminate', floor=150)
+    import c17
+    throwers = {g['id'] for g in F.fn.values() if any(n.get('k') == 'throw' for n in walk(g.get('body')))}
+    for f in sorted(pf, key=lambda f: f['id']):
+        if not f.get('noexcept'):
+            ck.ok(R6, f['id'])
+            continue
+        seen, _edges = c17.reachable(F, [f['id']])
+        hit = sorted(seen & throwers)
+        ck.check(R6, f['id'], not hit, f'{f["id"]} is declared noexcept but reaches {len(hit)} function(s) that throw (e.g. '
+                 f'{[contracts.short(contracts.fn_qname(h)) for h in hit[:3]]}): a refusal raised below it calls std::terminate instead of '
+                 'reaching the caller as std::logic_error', loc=f['loc'], fn=f['id'])
 
     # static tables of the printer
     for g in F.globals:
